@@ -4,15 +4,26 @@ package main
 //
 // Kind "pipeline": one connection (only the first dial succeeds), a scripted history, each event run to
 // quiescence (no timing guesses: see c05Conn.barrier).
-//   case:   <id> net=<tcp|udp> q0=<n> ev=<S<cid>|R<k>.<mark>|I<id>.<mark>|G|C<k>|X|Y>,...
-//   result: o=<o0>,<o1>,... w=<w0>,<w1>,... closed=<0|1>
+//   case:   <id> net=<tcp|udp> q0=<n> ev=<S<cid>[:<flags>]|U<k>|R<k>.<mark>|I<id>.<mark>|G|C<k>|X|Y>,...
+//           flags of a start (write outcomes chosen by the environment):
+//             h  the exchange's net.Conn.Write is HELD (it has its wire id and sits inside write) until U<k>
+//             o  oversized query (65508..65535 octets): a real datagram socket answers EMSGSIZE (connection stays
+//                open); over TCP framing it is an ordinary large frame
+//             s  the Write returns a scripted EMSGSIZE error without writing (connection stays open)
+//             x  the Write returns a scripted other error (udp: write closes the connection; tcp: stays open)
+//           U<k> lets the held Write of exchange k return (success, or the failure its flags say)
+//   result: o=<o0>,<o1>,... w=<w0>,<w1>,... closed=<0|1> reuse=<wire ids found in the Write calls of two exchanges>
 //           o_k = M<mark> | B<mark> | M? | B? | E | W ; w_k = wire id seen by the server or "-"
 // Kind "pipeline_eol": n sequential exchanges against servers that answer everything; wire-id exhaustion.
 //   case:   <id> net=<tcp|udp> n=<count> q0=<n>
 //   result: n0= first= last= mono= retired= rest= rfirst= ok= bad= err=
 // Kind "pipeline_conc": concurrent exchanges against reordering/duplicating/spoofing/dropping servers,
 // judged by an oracle (no model).
-//   case:   <id> net=<tcp|udp> n= par= seed= q0= dup=<pct> unsol=<pct> drop=<pct> cancel=<pct>
+//   case:   <id> net=<tcp|udp> n= par= seed= q0= dup=<pct> unsol=<pct> drop=<pct> cancel=<pct> [big=<pct>]
+//           big: share of exchanges whose query has 65508..65535 octets: on the real datagram socket every Write of it
+//           gets the kernel's EMSGSIZE (connection stays open, ExchangeContext retries up to 5 times on the same
+//           connection), on tcp the scripted connection fails every Write of such a frame (connection stays open,
+//           same retries) - write failures interleaved with the successful exchanges of the other workers
 //   result: ok=<n> err=<n> conns=<n> viol=<none|text>
 
 import (
@@ -24,11 +35,13 @@ import (
 	"io"
 	"math/rand"
 	"net"
+	"os"
 	"runtime"
 	"strconv"
 	"strings"
 	"sync"
 	"sync/atomic"
+	"syscall"
 	"time"
 
 	"github.com/IrineSistiana/mosproxy/internal/dnsmsg"
@@ -87,6 +100,15 @@ type c05Conn struct {
 	inRead    bool
 	bytesRead int64
 	closed    bool
+	// onWrite, when set, decides the outcome of a Write (the environment: a Write may block and may fail)
+	onWrite func(inner net.Conn, b []byte) (int, error)
+}
+
+func (c *c05Conn) Write(b []byte) (int, error) {
+	if c.onWrite != nil {
+		return c.onWrite(c.Conn, b)
+	}
+	return c.Conn.Write(b)
 }
 
 func (c *c05Conn) Read(b []byte) (int, error) {
@@ -279,6 +301,15 @@ type c05Ex struct {
 	done   chan struct{}
 	seen   chan struct{}
 	once   sync.Once
+	// write plan (flags of the start event)
+	hold     bool
+	big      bool
+	fail     byte          // 0, 's' (scripted EMSGSIZE), 'x' (scripted other error)
+	held     chan struct{} // closed when the exchange's Write has been entered and is being held
+	heldOnce sync.Once
+	release  chan struct{} // closed by U<k> (or teardown)
+	relOnce  sync.Once
+	emitMark int // event loop only: len(emitLog) when the exchange was started
 	// written by the exchange goroutine before close(done)
 	out string
 	// guarded by c05Pipe.mu
@@ -308,10 +339,12 @@ type c05Pipe struct {
 	udpCli  *net.UDPAddr
 	exs     []*c05Ex
 	srvDone chan struct{}
+	writes  [][2]int // (exchange, wire id) of every Write call the real code made, failed ones included
 
 	// event loop only
 	totalWritten int64
 	closedKnown  bool
+	emitLog      []uint16 // header ids of every message the server emitted, in order
 }
 
 func (st *c05Pipe) dial(ctx context.Context) (net.Conn, error) {
@@ -324,7 +357,7 @@ func (st *c05Pipe) dial(ctx context.Context) (net.Conn, error) {
 	st.srvDone = make(chan struct{})
 	if st.netw == "tcp" {
 		c, s := net.Pipe()
-		st.cw = &c05Conn{Conn: c}
+		st.cw = &c05Conn{Conn: c, onWrite: st.onWrite}
 		st.tcpSrv = s
 		go st.serveTCP(s, st.srvDone)
 		return st.cw, nil
@@ -334,11 +367,66 @@ func (st *c05Pipe) dial(ctx context.Context) (net.Conn, error) {
 		close(st.srvDone)
 		return nil, err
 	}
-	st.cw = &c05Conn{Conn: cli}
+	st.cw = &c05Conn{Conn: cli, onWrite: st.onWrite}
 	st.udpSrv = srv
 	st.udpCli = cli.LocalAddr().(*net.UDPAddr)
 	go st.serveUDP(srv, st.srvDone)
 	return st.cw, nil
+}
+
+// onWrite is the environment's side of net.Conn.Write for the exchange the octets belong to.
+func (st *c05Pipe) onWrite(inner net.Conn, b []byte) (int, error) {
+	q := b
+	if st.netw == "tcp" && len(b) >= 2 {
+		q = b[2:]
+	}
+	wid, k, ok := c05ParseQuery(q)
+	var e *c05Ex
+	if ok {
+		st.mu.Lock()
+		if k < len(st.exs) {
+			e = st.exs[k]
+			st.writes = append(st.writes, [2]int{k, int(wid)})
+		}
+		st.mu.Unlock()
+	}
+	if e == nil {
+		return inner.Write(b)
+	}
+	if e.hold {
+		e.heldOnce.Do(func() { close(e.held) })
+		<-e.release
+	}
+	// A failing Write also cancels the caller: ExchangeContext then does not retry on the same connection
+	// (retries are exercised by pipeline_conc big=), one exchange = one attempt = one thread of the model.
+	switch e.fail {
+	case 's':
+		e.cancel()
+		return 0, &net.OpError{Op: "write", Net: "udp", Err: os.NewSyscallError("write", syscall.EMSGSIZE)}
+	case 'x':
+		e.cancel()
+		return 0, errors.New("c05: scripted write error")
+	}
+	n, err := inner.Write(b)
+	if err != nil && (e.big || e.hold) {
+		e.cancel()
+	}
+	return n, err
+}
+
+// c05BigQuery is a valid one-question query padded (EDNS padding option) to 65508..65535 octets: one more than
+// fits into a UDP datagram over IPv4.
+func c05BigQuery(cid uint16, k int) []byte {
+	q := hx.BuildQuery(cid, c05Name(k), 1, 1, true)
+	target := 65508 + (k*7)%28
+	pad := target - len(q) - 11 - 4
+	binary.BigEndian.PutUint16(q[10:], 1)
+	q = append(q, 0, 0, 41, 0x04, 0xd0, 0, 0, 0, 0)
+	q = binary.BigEndian.AppendUint16(q, uint16(pad+4))
+	q = binary.BigEndian.AppendUint16(q, 12)
+	q = binary.BigEndian.AppendUint16(q, uint16(pad))
+	q = append(q, make([]byte, pad)...)
+	return q
 }
 
 func (st *c05Pipe) onQuery(q []byte) {
@@ -419,6 +507,13 @@ func (st *c05Pipe) pending() []*c05Ex {
 
 func (st *c05Pipe) waitAllPending() {
 	for _, e := range st.pending() {
+		if e.hold {
+			select {
+			case <-e.release:
+			default:
+				continue // still inside Write
+			}
+		}
 		c05WaitChan(e.done, 5*time.Second)
 	}
 }
@@ -430,6 +525,7 @@ func (st *c05Pipe) emit(msg []byte, id uint16) string {
 	if cw == nil || st.closedKnown {
 		return ""
 	}
+	st.emitLog = append(st.emitLog, id)
 	st.write(msg)
 	if !cw.barrier(st.totalWritten) {
 		return "HARNESS-ERROR barrier timeout"
@@ -448,14 +544,28 @@ func (st *c05Pipe) emit(msg []byte, id uint16) string {
 	return ""
 }
 
-func (st *c05Pipe) start(cid uint16) string {
+func (st *c05Pipe) start(cid uint16, flags string) string {
 	st.mu.Lock()
 	k := len(st.exs)
 	ctx, cancel := context.WithCancel(context.Background())
-	e := &c05Ex{cid: cid, cancel: cancel, done: make(chan struct{}), seen: make(chan struct{}), wid: -1}
+	e := &c05Ex{cid: cid, cancel: cancel, done: make(chan struct{}), seen: make(chan struct{}), wid: -1,
+		held: make(chan struct{}), release: make(chan struct{})}
+	for _, f := range flags {
+		switch f {
+		case 'h':
+			e.hold = true
+		case 'o':
+			e.big = true
+		case 's', 'x':
+			e.fail = byte(f)
+		}
+	}
 	st.exs = append(st.exs, e)
 	st.mu.Unlock()
 	q := hx.BuildQuery(cid, c05Name(k), 1, 1, true)
+	if e.big {
+		q = c05BigQuery(cid, k)
+	}
 	go func() {
 		defer close(e.done)
 		defer func() {
@@ -482,13 +592,88 @@ func (st *c05Pipe) start(cid uint16) string {
 	}()
 	tm := time.NewTimer(5 * time.Second)
 	defer tm.Stop()
+	e.emitMark = len(st.emitLog)
+	select {
+	case <-e.seen:
+	case <-e.done:
+	case <-e.held:
+	case <-tm.C:
+		return fmt.Sprintf("HARNESS-ERROR exchange %d neither seen nor done", k)
+	}
+	if !e.hold {
+		if s := st.afterWrite(e); s != "" {
+			return s
+		}
+	}
+	return ""
+}
+
+// willFail: the Write of e fails (when it is reached on a healthy connection); closes: that failure makes write
+// close the connection (datagram socket, error other than EMSGSIZE).
+func (st *c05Pipe) willFail(e *c05Ex) (fails, closes bool) {
+	switch {
+	case e.fail == 'x':
+		return true, st.netw == "udp"
+	case e.fail == 's':
+		return true, false
+	case e.big && st.netw == "udp":
+		return true, false
+	}
+	return false, false
+}
+
+// afterWrite waits for what the (released or never held) Write of e leads to.
+func (st *c05Pipe) afterWrite(e *c05Ex) string {
+	fails, closes := st.willFail(e)
+	if !fails {
+		return ""
+	}
+	c05WaitChan(e.done, 5*time.Second)
+	if closes {
+		// write closed the connection itself (if the Write was reached at all)
+		if cw := st.conn(); cw != nil && cw.waitClosed(300*time.Millisecond) {
+			st.closedKnown = true
+			st.waitAllPending()
+		}
+	}
+	return ""
+}
+
+// releaseHeld lets the held Write of exchange k return.
+func (st *c05Pipe) releaseHeld(k int) string {
+	st.mu.Lock()
+	var e *c05Ex
+	if k >= 0 && k < len(st.exs) {
+		e = st.exs[k]
+	}
+	st.mu.Unlock()
+	if e == nil || !e.hold {
+		return ""
+	}
+	e.relOnce.Do(func() { close(e.release) })
+	tm := time.NewTimer(5 * time.Second)
+	defer tm.Stop()
 	select {
 	case <-e.seen:
 	case <-e.done:
 	case <-tm.C:
-		return fmt.Sprintf("HARNESS-ERROR exchange %d neither seen nor done", k)
+		return fmt.Sprintf("HARNESS-ERROR released exchange %d neither seen nor done", k)
 	}
-	return ""
+	// A message carrying this exchange's wire id that arrived while it sat inside Write is in its channel: after a
+	// successful Write the exchange returns it at once.  Wait for that (else a following close would race with the
+	// reply arm: two ready select arms).
+	st.mu.Lock()
+	wid := e.wid
+	st.mu.Unlock()
+	if wid >= 0 && !e.isDone() {
+		for _, id := range st.emitLog[e.emitMark:] {
+			if int(id) == wid {
+				c05WaitChan(e.done, 5*time.Second)
+				break
+			}
+		}
+	}
+	return st.afterWrite(e)
 }
 
 func c05RunPipeline(parts []string) string {
@@ -507,6 +692,7 @@ func c05RunPipeline(parts []string) string {
 		exs := append([]*c05Ex(nil), st.exs...)
 		st.mu.Unlock()
 		for _, e := range exs {
+			e.relOnce.Do(func() { close(e.release) })
 			e.cancel()
 		}
 		st.t.Close()
@@ -542,11 +728,16 @@ func c05RunPipeline(parts []string) string {
 		arg := ev[1:]
 		switch ev[0] {
 		case 'S':
-			cid := hx.MustAtoi(arg)
+			cs, flags, _ := strings.Cut(arg, ":")
+			cid := hx.MustAtoi(cs)
 			if cid < 0 || cid > 65535 {
 				return "HARNESS-ERROR bad cid " + ev
 			}
-			if s := st.start(uint16(cid)); s != "" {
+			if s := st.start(uint16(cid), flags); s != "" {
+				return s
+			}
+		case 'U':
+			if s := st.releaseHeld(hx.MustAtoi(arg)); s != "" {
 				return s
 			}
 		case 'R':
@@ -611,7 +802,17 @@ func c05RunPipeline(parts []string) string {
 				continue
 			}
 			e.cancel()
-			c05WaitChan(e.done, 5*time.Second)
+			stillHeld := false
+			if e.hold {
+				select {
+				case <-e.release:
+				default:
+					stillHeld = true // blocked inside Write: it cannot notice the cancellation before U<k>
+				}
+			}
+			if !stillHeld {
+				c05WaitChan(e.done, 5*time.Second)
+			}
 		case 'X', 'Y':
 			if ev[0] == 'X' && netw == "tcp" {
 				st.mu.Lock()
@@ -650,6 +851,14 @@ func c05RunPipeline(parts []string) string {
 	for i, e := range exs {
 		wids[i] = e.wid
 	}
+	owner := map[int]int{}
+	reused := map[int]bool{}
+	for _, w := range st.writes {
+		if o, ok := owner[w[1]]; ok && o != w[0] {
+			reused[w[1]] = true
+		}
+		owner[w[1]] = w[0]
+	}
 	st.mu.Unlock()
 	os, ws := make([]string, len(exs)), make([]string, len(exs))
 	for i, e := range exs {
@@ -669,9 +878,9 @@ func c05RunPipeline(parts []string) string {
 		closed = 1
 	}
 	if len(exs) == 0 {
-		return fmt.Sprintf("o=- w=- closed=%d", closed)
+		return fmt.Sprintf("o=- w=- closed=%d reuse=0", closed)
 	}
-	return fmt.Sprintf("o=%s w=%s closed=%d", strings.Join(os, ","), strings.Join(ws, ","), closed)
+	return fmt.Sprintf("o=%s w=%s closed=%d reuse=%d", strings.Join(os, ","), strings.Join(ws, ","), closed, len(reused))
 }
 
 // ---------------------------------------------------------------------------------------------
@@ -1061,6 +1270,7 @@ func c05RunConc(parts []string) string {
 	seed := get("seed", 1)
 	q0 := get("q0", 0)
 	cancelP := get("cancel", 0)
+	bigP := get("big", 0)
 	if par < 1 {
 		par = 1
 	}
@@ -1072,6 +1282,14 @@ func c05RunConc(parts []string) string {
 		if netw == "tcp" {
 			c, s := net.Pipe()
 			cc.cw = &c05Conn{Conn: c}
+			if bigP > 0 {
+				cc.cw.onWrite = func(inner net.Conn, b []byte) (int, error) {
+					if len(b) > 65507+2 {
+						return 0, errors.New("c05: scripted write error (oversized frame)")
+					}
+					return inner.Write(b)
+				}
+			}
 			cc.tcp = s
 		} else {
 			srv, cli, err := c05UDPPair()
@@ -1146,6 +1364,9 @@ func c05RunConc(parts []string) string {
 				}
 				cid := uint16(rng.Intn(65536))
 				q := hx.BuildQuery(cid, c05Name(i), 1, 1, true)
+				if bigP > 0 && rng.Intn(100) < bigP {
+					q = c05BigQuery(cid, i) // its writes fail, the wire ids they were assigned stay consumed
+				}
 				ctx, cancel := context.WithTimeout(context.Background(), 400*time.Millisecond)
 				var tm *time.Timer
 				if cancelP > 0 && rng.Intn(100) < cancelP {
